@@ -227,6 +227,8 @@ def offsets(R, P):
         R.broken(str(ex))
         return
     n_tz, n_all, bad = 0, 0, None
+    iso_call = g.calls("s_parse_iso_8601")
+    n_iso, bad_iso = 0, None
     for st in sts.get(sub["id"], []):
         n_all += 1
         so = st.env.get("v:seconds_offset")
@@ -238,6 +240,12 @@ def offsets(R, P):
             bad = "timestamp %s / conversions %s not tracked" % (ts, which)
             continue
         ua = [v for k, v in st.env.items() if k.endswith(")->utc_assumed")]
+        if which == ["mktime"] and iso_call:
+            # ISO 8601 text without a designator is UTC: the local-time conversion is never used after the ISO parser accepted
+            rv = st.vals.get(iso_call[0].node["id"])
+            n_iso += rv is not None
+            if rv is not None and not (entails(st, -rv) and entails(st, rv)):
+                bad_iso = "mktime (local time) converts the fields on a path where s_parse_iso_8601 accepted the text"
         if which == ["mktime"]:
             # local conversion only when no zone and no offset
             if so is None or not (entails(st, so) and entails(st, -so)) or (ua and not (entails(st, ua[0]) and entails(st, -ua[0]))):
@@ -258,6 +266,14 @@ def offsets(R, P):
             "the stored instant is the calendar conversion minus the offset; timegm whenever a zone or offset was given (%d states, %d with an RFC 822 numeric zone = +-(3600*hh+60*mm))" % (n_all, n_tz),
             "offset handling in aws_date_time_init_from_str_cursor is wrong: %s" % bad)
     R.require(n_tz >= 2, "RFC 822 numeric-zone paths not found (%d)" % n_tz)
+    R.require(len(iso_call) == 1 and n_iso >= 1, "no local-time path that went through the ISO 8601 parser (%d call(s), %d state(s))" % (len(iso_call), n_iso))
+    R.check(bad_iso is None, "OFFSET", "init_from_str:iso8601-is-utc", "%s()" % g.name, "text accepted by the ISO 8601 parser is converted as UTC (%d local-time state(s) all have the ISO parser rejecting)" % n_iso,
+            "%s: an ISO 8601 timestamp without an offset is read in the machine's local zone (dt->utc_assumed is not set on the ISO path)" % bad_iso)
+    # the RFC 822 zone digits are decimal
+    st_ = g.calls("strtol")
+    bases = [g.is_const(RU.arg(g, e.node, 2)) for e in st_]
+    R.check(len(st_) == 2 and bases == [10, 10], "OFFSET", "init_from_str:zone-digits-decimal", where(g, st_[0]) if st_ else g.name, "both zone fields are converted with base 10",
+            "the RFC 822 zone digits are converted with base %s: with base 0 a leading zero selects octal, so +0800 / +0930 lose their hours / minutes (08, 09 are not octal numbers)" % bases)
     # the sign of the RFC 822 offset follows tz[0] == '-'
     negs = []
     for b in g.blocks.values():
@@ -515,6 +531,8 @@ def analyse(ctx, replace=None, only=None):
 
 
 MUTANTS = [
+    {"name": "iso-path-not-utc", "file": FILE, "expect": "OFFSET", "old": "            dt->utc_assumed = true;\n            successfully_parsed = true;\n        }\n    }\n\n    if (fmt == AWS_DATE_FORMAT_RFC822", "new": "            successfully_parsed = true;\n        }\n    }\n\n    if (fmt == AWS_DATE_FORMAT_RFC822"},
+    {"name": "zone-digits-base-0", "file": FILE, "expect": "OFFSET", "old": "long hour = strtol(hour_str, NULL, 10);", "new": "long hour = strtol(hour_str, NULL, 0);"},
     {"name": "jun-jul-swapped", "file": FILE, "expect": "MONTH-TABLE", "old": "    if (s_jun == comp_val) {\n        return 5;", "new": "    if (s_jul == comp_val) {\n        return 5;"},
     {"name": "key-from-wrong-name", "file": FILE, "expect": "MONTH-TABLE", "old": "        s_sep = STR_TRIPLET_TO_INDEX(\"sep\");", "new": "        s_sep = STR_TRIPLET_TO_INDEX(\"set\");"},
     {"name": "fraction-scan-stops-after-three-digits", "file": FILE, "expect": "FIELD-MAP", "old": "    for (size_t i = 1; i < str->len; ++i) {\n        if (aws_isdigit(str->ptr[i])) {\n            ++num_digits;", "new": "    for (size_t i = 1; i < str->len && num_digits < 3; ++i) {\n        if (aws_isdigit(str->ptr[i])) {\n            ++num_digits;"},
